@@ -8,7 +8,9 @@ TRACE_MODULE = "PipelineTrace"
 TRACE_CFG = "PipelineTrace.cfg"
 RULE = ("random exact-domain UFOs (line / quadratic / cubic contours, nested mirrored / sheared / scaled components, mixed "
         "glyphs) x {convertCubics, reverseDirection, flattenComponents} x {defcon, ufoLib2}; compiled with compileTTF, saved, "
-        "reloaded; glyf points, flags, end points, components and maxp projected; non-trivial = font has a composite or "
+        "reloaded; glyf points, flags, end points, components and maxp projected; plus families of 2-3 masters through "
+        "compileInterpolatableTTFs / ...FromDS with a mixed glyph holding a 4-8x enlarged component of a small cubic shape (the "
+        "conversion error is measured on the decomposed result); non-trivial = font has a composite or "
         "mixed glyph; distinct by source digest + options")
 ASSUMPTIONS = ["fontTools glyf decompiler is the observation channel",
                "cubic->quadratic approximation error is measured by the harness (dense sampling) and enters as errMilli"]
@@ -35,10 +37,39 @@ def cases(tier, seed):
         out.append({"cid": f"c02-{seed}-{k}", "lib": rng.choice(["ufoLib2", "defcon"]), "flavor": "tt",
                     "ufo": {"glyphs": glyphs, "info": {"unitsPerEm": 1000, "ascender": 800, "descender": -200}},
                     "kwargs": kwargs})
+    # the interpolatable TrueType path: 2-3 compatible masters; a MIXED glyph (own contour + a much enlarged component of a
+    # small cubic shape) must be decomposed from the cubic source, so that the conversion error is not enlarged with it
+    from ..absfont import MS, PS
+
+    def ring(cx, cy, r, k):
+        c = int(r * 0.5523 * 4) * PS // 4
+        cx, cy, r = cx * PS, cy * PS, r * PS
+        pts = [[cx + r, cy, "curve"], [cx + r, cy + c, "off"], [cx + c, cy + r, "off"], [cx, cy + r, "curve"], [cx - c, cy + r, "off"],
+               [cx - r, cy + c, "off"], [cx - r, cy, "curve"], [cx - r, cy - c, "off"], [cx - c, cy - r, "off"], [cx, cy - r, "curve"],
+               [cx + c, cy - r, "off"], [cx + r, cy - c, "off"]]
+        return pts[k:] + pts[:k]
+
+    for k in range(16 if tier == "quick" else 300):
+        base = gen.glyphset(rng, nmin=2, nmax=4, max_depth=1, kinds=["line", "quad", "cubic"], palette=PALETTE_TT, unicodes=True, mixed=False)
+        r0 = rng.randint(30, 60)
+        base["ring"] = {"cs": [ring(rng.randint(0, 40), rng.randint(0, 40), r0, 0)], "comps": [], "anchors": [], "w": 200 * PS, "h": 0, "u": []}
+        sc = rng.choice([4, 6, 8])
+        base["mx"] = {"cs": [[[0, 0, "line"], [100 * PS, 0, "line"], [100 * PS, 50 * PS, "line"]]],
+                      "comps": [{"b": "ring", "m": [sc * MS, 0, 0, rng.choice([sc, sc, -sc]) * MS], "d": [rng.randint(-50, 50) * PS, rng.randint(-50, 50) * PS]}],
+                      "anchors": [], "w": 700 * PS, "h": 0, "u": []}
+        nm = rng.choice([2, 3])
+        try:
+            masters = [base] + [gen.perturb_master(rng, base, palette=PALETTE_TT, change_2x2=0.0) for _ in range(nm - 1)]
+        except RuntimeError:
+            continue
+        out.append({"cid": f"c02-{seed}-i{k}", "lib": rng.choice(["ufoLib2", "defcon"]), "interp": True, "masters": masters,
+                    "via": rng.choice(["list", "ds"]), "kwargs": {"flattenComponents": rng.random() < 0.3}})
     return out
 
 
 def execute(case):
+    if case.get("interp"):
+        return compile_exec.interp_tt_compile(case)
     return [compile_exec.static_compile(case)]
 
 
